@@ -11,7 +11,7 @@ HARNESSES = [dict(name="configmgr", pkg="./pkg/configmgr/", test="TestVerifC13",
 
 def route(case):
     return "configmgr_race" if case.startswith("conc ") else "configmgr"
-VARIANTS = ["repaired"]      # /repo HEAD; every recorded finding is fixed, a regression to an old defect is a VIOLATION
+VARIANTS = ["repaired", "restore_unreported", "boot_unatomic", "head"]   # head = /repo HEAD (two open findings, each with a fix patch)
 MODEL_NEEDS_IMPL = True     # only the concurrent cases use it (linearizability search in the driver)
 RULE = ("One case = one history against a fresh ConfigManager: a registry of 2-7 recording handlers on real path "
         "patterns (scalar leaves of interfaces/vrfs/protocols/aaa, _internal no-op paths, a literal pattern shadowing "
@@ -44,7 +44,7 @@ ASSUMPTIONS = ["plugin-namespace leaves: no zero values, integers below 2^53 and
                "path segments contain no '.', '_dot_' or wildcard-typed encodings (generic <*> wildcards only)",
                "no two registered patterns match the same path unless one of them equals it literally",
                "string values are valid UTF-8 (deepCopyConfig is a JSON round trip and would rewrite others)",
-               "whole-container sets (interfaces.<*> with a struct value) and LoadConfig are not generated"]
+               "whole-container sets (interfaces.<*> with a struct value) are not generated; subscriber-group ranges are single numbers (no a-b ranges)"]
 
 SCHEMA = {
     "interfaces.<*>.description": ("S", "1,2"),
@@ -111,7 +111,7 @@ def plugin_value(rng, pat):
     if pat.endswith(".enabled"):
         return "b1"
     return rng.choice([hx("edited"), hx("x"), hx("orig"), hx("second")])
-FAULTS = ["0:R", "0:R", "0:rq1", "2:q1", "3:q2", "0:tq1", "0:sq2", "0:Rq2", "0:Rs"] + ["0:-"] * 10 + ["1:-", "2:-", "3:-", "4:-", "5:-", "6:-", "0:t", "0:r", "0:s", "0:v", "0:s", "0:v", "2:t", "0:tr", "0:sv",
+FAULTS = ["0:Ru", "0:ru", "0:su", "0:Rsu", "0:u", "0:R", "0:R", "0:rq1", "2:q1", "3:q2", "0:tq1", "0:sq2", "0:Rq2", "0:Rs"] + ["0:-"] * 10 + ["1:-", "2:-", "3:-", "4:-", "5:-", "6:-", "0:t", "0:r", "0:s", "0:v", "0:s", "0:v", "2:t", "0:tr", "0:sv",
                          "0:rs", "3:s", "0:tv"]
 
 
@@ -236,12 +236,12 @@ def rand_ops(rng, pats, deps, nops, guard=None):
         ops.append("m %s %s" % (sid(), rng.choice(FAULTS)))
 
     if not guard and rng.random() < 0.15:
-        ops.append(boot_op(rng.choice(["0:-"] * 6 + ["1:-", "2:-", "0:t", "0:s", "0:R", "4:q1"])))
+        ops.append(boot_op(rng.choice(["0:-"] * 6 + ["1:-", "2:-", "0:t", "0:s", "0:R", "4:q1", "0:G", "0:G", "0:Ru"])))
     while len(ops) < nops:
         r = rng.random()
         if r < 0.03:
             # with the MSS guard the model's validation parameter comes from the initial group: keep the groups
-            ops.append(load_op(sid(), "k" if guard else rng.choice(["c", "n", "k"])))
+            ops.append(load_op(sid(), "k" if guard else rng.choice(["c", "n", "k", "m"])))
         elif r < 0.04 and not guard:
             ops.append(boot_op(rng.choice(FAULTS)))
         elif r < 0.35:
@@ -336,6 +336,15 @@ def boundary_cases():
         out.append(regn + ["ops"] + base + ["m 1 " + f, load_op("@", "c"), "m @ 0:-", load_op("@", "n"), "m @ 0:-", "c"])
         out.append(regn + ["ops"] + base + ["m 1 " + f, load_op("@", "k"), "m @ " + f, "s @ interfaces.eth2.mtu i1 0",
                                            load_op("@", "c"), "s @ interfaces.eth2.mtu i2 0", "m @ 0:-", "x @"])
+    # start-up with a colliding / failing configuration: nothing of it may stay published
+    for f in ["0:G", "2:G", "1:-", "0:r", "0:Ru", "0:su"]:
+        out.append(regb + ["ops", "c", "s @ interfaces.eth2.mtu i1400 0", "m @ 0:-", boot_op(f), "c",
+                           "s @ interfaces.eth2.mtu i1300 0", "m @ 0:-"])
+    # out-of-range S-VLAN strings loaded into the candidate: ValidateMatchIndex skips such entries
+    out.append(regn + ["ops"] + base + [load_op("@", "m"), "m @ 0:-", "c", "s @ interfaces.eth2.mtu i1 0", "m @ 0:-"])
+    # the daemon is down: reload and restoring reload both fail
+    for f in ["0:Ru", "0:ru", "0:su", "0:u", "0:Rsu"]:
+        out.append(reg3 + ["ops"] + base + ["m 1 " + f, "m 1 0:-", "c", "s 2 protocols.ospf.router-id %s 0" % hx("3.3.3.3"), "m 2 " + f])
     # the routing daemon: reload fails cleanly / after the daemon took the candidate; a Rollback call fails
     for f in ["0:r", "0:R", "0:Rq1", "0:rq2", "3:q1", "0:tq2", "0:sq1"]:
         out.append(reg3 + ["ops"] + base + ["m 1 " + f, "m 1 0:-", "c", "s 2 interfaces.eth1.mtu i1400 0", "m 2 0:-",
@@ -491,8 +500,14 @@ def group_entries(collide):
 
 
 def load_op(sid, mode):
-    """LoadConfig(session, copy of the candidate with colliding (c) / distinct (n) subscriber groups / unchanged (k))"""
-    return "l %s %s %s" % (sid, mode, "-" if mode == "k" else ",".join(sorted(group_entries(mode == "c"))))
+    """LoadConfig(session, copy of the candidate with colliding (c) / distinct (n) / out-of-range (m) subscriber
+    groups / unchanged (k))"""
+    if mode == "k":
+        return "l %s k -" % sid
+    es = group_entries(mode in "cm")
+    if mode == "m":
+        es = [e.replace(".svlan=" + hx("100"), ".svlan=" + hx("5000")) for e in es]
+    return "l %s %s %s" % (sid, mode, ",".join(sorted(es)))
 
 
 NET = "203.0.113.0/24"
@@ -508,8 +523,16 @@ BOOT_STEPS = ("E" + ",".join(["protocols.static/", "protocols.static.ipv4.0/",
               + "+S" + "protocols.bgp.ipv4-unicast.networks." + NET.encode().hex() + "=p")
 
 
+def boot_group_entries():
+    es = group_entries(True)
+    for g in ("a", "b"):
+        es += [SG + ".%s.vlans.0.access-types=l" % g + "ipoe".encode().hex(), SG + ".%s.vlans.0.parent-interface=" % g + hx("eth1")]
+    return es
+
+
 def boot_op(fault):
-    return "B %s %s %s" % (fault, ",".join(sorted(BOOT_CFG)), BOOT_STEPS)
+    cfg = BOOT_CFG + (boot_group_entries() if "G" in fault else [])       # G: the start-up file has colliding groups
+    return "B %s %s %s" % (fault, ",".join(sorted(cfg)), BOOT_STEPS)
 
 
 def recipe_tokens(recipe):
@@ -559,7 +582,18 @@ def monitor(case, line, tolerate=None):
         res, tr, d = parse_step(s)
         persisted = [k for k in "RSFW" if k in d]
         if o[0] == "B":
-            pass        # start-up publishes the loaded configuration by design; its own commit is checked by the model
+            # a start-up that does not succeed must leave nothing of its configuration published
+            if res not in ("ok", "bootversion", "nochanges") and ("R" in d or "F" in d or "W" in d):
+                if "startup-publishes-before-commit" not in tol:
+                    return ("step %d (B %s): the start-up returned %s but %s changed%s" % (
+                        i, o[1], res, [k for k in "RFW" if k in d],
+                        " — the published configuration has colliding subscriber groups" if "R" in d and collides("{" + d["R"] + "}") else ""))
+            okap = [x[2:] for x in tr if x.startswith("A:")]
+            rb = [x[2:] for x in tr if x.startswith("R:") or x.startswith("R!")]
+            if res not in ("ok", "bootversion") and rb != okap[::-1]:
+                return "step %d (B %s): start-up returned %s, applied %s but rolled back %s" % (i, o[1], res, okap, rb)
+            if res in ("ok", "bootversion") and "R" in d and collides("{" + d["R"] + "}"):
+                return "step %d (B %s): the start-up committed a configuration with colliding subscriber groups" % (i, o[1])
         elif o[0] != "m":
             if o[0] == "l" and res == "ok":
                 loaded = True    # LoadConfig replaced the whole candidate: every path counts as set
@@ -579,7 +613,7 @@ def monitor(case, line, tolerate=None):
             elif res == "versionsave" and "v" in flags and "commit-error-after-swap:version-save" in tol and "W" not in d:
                 pass
             elif res != "ok":
-                if d.get("D") == "other" and "reload-failure-no-frr-restore" not in tol:
+                if d.get("D") == "other" and not res.endswith("U") and "restore-failure-not-reported" not in tol:
                     return ("step %d (%s): commit returned %s but the routing daemon now runs a configuration that is "
                             "neither what it had nor the running one" % (i, " ".join(o), res))
                 if persisted or "V" in d:
@@ -676,8 +710,10 @@ def signature(case, impl, models):
         res, tr, d = parse_step(steps(impl)[i])
     except Exception:
         return "unclassified"
-    if o[0] == "m" and res == "frrreload" and ("r" in o[2].split(":")[1] or "R" in o[2].split(":")[1]):
-        return "reload-failure-no-frr-restore"
+    if o[0] in "mB" and res in ("frrreload", "startupsave") and "u" in o[2 if o[0] == "m" else 1].split(":")[1]:
+        return "restore-failure-not-reported"
+    if o[0] == "B" and res not in ("ok", "bootversion", "nochanges") and ("R" in d or "S" in d):
+        return "startup-publishes-before-commit"
     if o[0] == "s" and res == "setfail" and "C" in d:
         return "failed-set-leaves-containers"
     if o[0] == "m":
